@@ -200,3 +200,31 @@ Proof.
       * unfold c17_spec_binomial. rewrite (proj2 (Z.ltb_ge n 0)), Z.ltb_irrefl by lia. simpl. now rewrite C17_Proofs_Int.c17_choose_nn.
     + apply C17_Proofs_BinFix.C17_binomial_fix_outside_lemma. lia.
 Qed.
+
+(* integer promotion of narrow result types in trunc: `T(lower+1)` is evaluated on the int expression, the returned value is
+   converted back modulo 2^w; invisible whenever floor(val)+1 is a value of the type (C17_trunc_round), visible one past the top *)
+Lemma C17_promotion_lemma :
+  (forall (t : c17_ity) (z : Z), c17_inrange t z = true -> c17_expr t z = C17_Val z /\ c17_store t z = C17_Val z) /\
+  c17_expr (C17_Ity false 16) 65536 = C17_Val 65536%Z /\ c17_store (C17_Ity false 16) 65536 = C17_Val 0%Z /\
+  c17_store (C17_Ity true 16) 32768 = C17_Val (-32768)%Z /\
+  c17_expr (C17_Ity false 32) 4294967296 = C17_Val 0%Z /\
+  (* trunc<unsigned short, double, relativeStrong, upward>(65535.999999999985, eps 1) == 1 before fixes/C17-4.patch, 65535 after *)
+  c17_trunc_v2 53 1024 c17_Hprec64 c17_Hmax64 C17_Upward (C17_Ity false 16) C17_RelStrong
+    (c17_ex_f64' 0x3ff0000000000000) (c17_ex_f64' 0x40effffffffffffe) = C17_Val 1%Z /\
+  c17_trunc_fix 53 1024 c17_Hprec64 c17_Hmax64 C17_Upward (C17_Ity false 16) C17_RelStrong
+    (c17_ex_f64' 0x3ff0000000000000) (c17_ex_f64' 0x40effffffffffffe) = C17_Val 65535%Z.
+Proof.
+  split; [intros t z H; split; [now apply c17_expr_in | now apply c17_store_in]|].
+  repeat split; vm_compute; reflexivity.
+Qed.
+
+(* F-C17-4: before fixes/C17-4.patch (c17_trunc_v2) / after (c17_trunc_fix), binary64, eps = 1e-4 (0x3f1a36e2eb1c432d), val = 32767.9999 / 65535.9999 *)
+Lemma C17_trunc_top_witnesses_lemma :
+  let eps := c17_ex_f64' 0x3f1a36e2eb1c432d in
+  c17_trunc_v2 53 1024 c17_Hprec64 c17_Hmax64 C17_Downward (C17_Ity true 16) C17_RelWeak eps (c17_ex_f64' 0x40dffffffe5c91d1) = C17_Val (-32768)%Z /\
+  c17_trunc_fix 53 1024 c17_Hprec64 c17_Hmax64 C17_Downward (C17_Ity true 16) C17_RelWeak eps (c17_ex_f64' 0x40dffffffe5c91d1) = C17_Val 32767%Z /\
+  c17_trunc_v2 53 1024 c17_Hprec64 c17_Hmax64 C17_Downward (C17_Ity false 16) C17_RelWeak eps (c17_ex_f64' 0x40efffffff2e48e9) = C17_Val 0%Z /\
+  c17_trunc_fix 53 1024 c17_Hprec64 c17_Hmax64 C17_Downward (C17_Ity false 16) C17_RelWeak eps (c17_ex_f64' 0x40efffffff2e48e9) = C17_Val 65535%Z /\
+  c17_trunc_v2 53 1024 c17_Hprec64 c17_Hmax64 C17_Downward (C17_Ity true 32) C17_RelWeak eps (c17_ex_f64' 0x41dfffffffe00000) = C17_UB /\
+  c17_trunc_fix 53 1024 c17_Hprec64 c17_Hmax64 C17_Downward (C17_Ity true 32) C17_RelWeak eps (c17_ex_f64' 0x41dfffffffe00000) = C17_Val 2147483647%Z.
+Proof. cbv zeta. repeat split; vm_compute; reflexivity. Qed.
